@@ -368,6 +368,7 @@ theorem unshallow_before_objects_counterexample :
   rcases hv with hv | ⟨p, k, objs, hp, _, _⟩
   · exact absurd hv (by decide)
   · simp [run, step, upd, toFS, lk, specUnshallow, progUnshallowEarly] at hp
+    split at hp <;> simp at hp
 
 end shallow
 
